@@ -329,7 +329,7 @@ var rvFuncs = []string{"RVNumField", "RVClass", "RVWidth", "RVEClass", "RVEWidth
 func (vc *VC) declareRVFuncs() {
 	vc.declareFun("RVNumField", []string{sBV64}, sBV64)
 	vc.declareFun("RVTag", []string{sBV64}, sBV64)
-	for _, f := range []string{"RVClass", "RVWidth", "RVEClass", "RVEWidth", "RVTypeTag"} {
+	for _, f := range []string{"RVClass", "RVWidth", "RVEClass", "RVEWidth", "RVTypeTag", "RVRow"} {
 		vc.declareFun(f, []string{sBV64, sBV64}, sBV64)
 	}
 }
@@ -356,6 +356,18 @@ func (vc *VC) rvTableAxioms(m int) []string {
 			out = append(out, fmt.Sprintf("(assert (and (= (RVClass %s %s) %s) (= (RVWidth %s %s) %s) (= (RVEClass %s %s) %s) (= (RVEWidth %s %s) %s) (= (RVTypeTag %s %s) %s)))",
 				mk, fk, bvLit(64, uint64(f.Class)), mk, fk, bvLit(64, uint64(f.Width)), mk, fk, bvLit(64, uint64(f.EClass)), mk, fk, bvLit(64, uint64(f.EWidth)),
 				mk, fk, bvLit(64, uint64(vc.w.tags.tag(f.T)))))
+		}
+		// RVRow: a witness (the number of the first profile row with that struct index) for statements of the
+		// form "every struct field has a profile row"; it carries no meaning of its own - lemmas that use it are
+		// proved against the revealed _fields table
+		seen := map[int]bool{}
+		rows := append([]FieldRow(nil), p.RowsByMsg[k]...)
+		sort.Slice(rows, func(a, b int) bool { return rows[a].Num < rows[b].Num })
+		for _, r := range rows {
+			if !seen[r.Sindex] {
+				seen[r.Sindex] = true
+				out = append(out, fmt.Sprintf("(assert (= (RVRow %s %s) %s))", mk, bvLit(64, uint64(r.Sindex)), bvLit(64, uint64(r.Num))))
+			}
 		}
 	}
 	return out
